@@ -77,4 +77,20 @@ PROPS = {
             "reference rendering follows README 'Scalar Types', 'Oneof', 'Enum': 32-bit ints/floats/bools bare, 64-bit ints and decimals quoted, bytes padded std base64, timestamps RFC 3339 ending in Z denoting the same instant (fraction digits not judged), dates zero-padded YYYY-MM-DD, enums short name; floats judged by 'bare literal parsing back to the same value'",
         ],
     },
+    "C03": {
+        "shards": 16,
+        "level_text": "For generated messages of the C01 type space the canonical encoding is re-spelled with every documented variation (quoted/bare numbers incl. 64-bit and decimal, std/URL base64 with/without padding, enum names with prefix, RFC 3339 timestamps at other offsets and fraction widths, member order, whitespace, explicit null for absent members, scalars as URL query parameters) alone and in random combinations - each must decode without error to the same message - and with exactly one fault of each listed class at every position kind - each must be rejected with an error.",
+        "level_note": "Only the spellings and fault classes the statement lists are judged; the typed walk that finds the sites and the expected equality are harness code over the harness's type model.",
+        "rule": "cases: messages of the systematic sink type, random sink messages, random J5-subset models, a digit-free 'query' type; per message: every applicable (variation x site) alone (sampled after 3 repetitions per (variation, kind, position) per worker), 3 random combinations, every applicable (fault x site). Non-trivial = message with >=1 set field; distinct by hash of (type, deterministic serialisation).",
+        "floors": ["c03:systematic", "c03:random-model", "c03:query-single", "c03:query-random", "c03:reorder", "c03:whitespace", "c03:explicit-null"]
+            + ["c03:variant:" + v for v in ["number-quoted", "number-bare", "base64-std-nopad", "base64-url-pad", "base64-url-nopad", "enum-prefixed", "timestamp-offset", "timestamp-fraction", "query"]]
+            + ["c03:variant-pos:" + p for p in ["top", "nested", "array", "map", "oneof-arm"]]
+            + ["c03:fault:" + f for f in ["wrong-json-type", "out-of-range-number", "unparsable-number", "invalid-base64", "invalid-date", "invalid-decimal", "invalid-timestamp", "unknown-enum-name", "unknown-key", "two-keys-in-oneof", "type-contradicts-key"]]
+            + ["c03:fault-pos:" + p for p in ["top", "nested", "array", "map", "oneof-arm"]],
+        "assumptions": COMMON_ASSUMPTIONS + [
+            "the canonical document is the encoder's output (checked by C08); variations and faults are applied on its parsed tree along the harness's type model",
+            "explicit nulls are added for absent members of objects (incl. flattened members and exposed oneofs), not inside oneof bodies",
+            "query parameters are built from the canonical document: top-level scalars, dotted paths into nested objects, repeated values for arrays of scalars, spelled as a query string and re-parsed with net/url",
+        ],
+    },
 }
